@@ -477,6 +477,13 @@ class Flow:
         direction = None
         item = None
         option_acc = False
+        if init == ('none',) and nxt[0] == 'phi' and nxt[1][0] == 'op' and nxt[1][1] == 'and' and len(nxt[1][2]) >= 2 \
+                and nxt[1][2][0] in (is_some(mu), ('is_some', mu)):
+            # `match acc { Some(m) if <cmp> => keep, _ => take }`: the presence test and the comparison share one condition;
+            # phi(A && C, x, y) = phi(A, phi(C, x, y), y)
+            from .vg import conj as _conj
+            rest_ = _conj(list(nxt[1][2][1:]))
+            nxt = phi(nxt[1][2][0], phi(rest_, nxt[2], nxt[3]), nxt[3])
         if init == ('none',) and nxt[0] == 'phi':
             # Option-valued running extremum: None -> Some(first element); Some(m) -> Some(selection between m and the element)
             c0 = nxt[1]
